@@ -29,6 +29,16 @@ R13f the engine's own bookkeeping reads real values: in the tick-phase functions
      `.value`, never through get_value()/as_float()/as_number(): those return the *simulated* value, and `Simulate: <tag> = <any
      text>` is legal P-code for every tag - a non-numeric Run Time made every tick raise outside the try, a simulated Connection
      Status tripped an assert every tick, a simulated System State made Stop invalid for the rest of the run.
+R13g only the user ends the error pause: set_error_state pauses by setting the same `_runstate_paused` flag the Pause command uses. The
+     timed Pause resumes by itself when its duration is over (PauseEngineCommand._run calls Unpause's _run after its wait loop); that
+     self-resume must be conditional on the engine not being in the error state - otherwise `Pause: 0.3 s` running (or queued) when
+     another instruction fails un-pauses the failed run a few ticks later.
+R13h marked failed on every path: every normal path through Tracking.mark_failed reaches `node.failed = True` - an early return
+     (the run-log exemption for Start/Stop/Restart) leaves `Stop: x` / `Restart: x` out of failed_line_ids although the run is
+     paused on their error.
+R13i a failed start leaves nothing behind: in CommandManager._execute_internal_command every explicitly raising path after the
+     instance was registered (create_internal_command) finalizes/disposes it - left registered, the instance of `Pause: x` is taken
+     for the running command by the corrected `Pause: 0.5 s`, which then never ends.
 Decides the error discipline; does not decide exceptions raised inside user UOD callbacks or by partial
 builtins on runtime values (those need value reasoning), nor RecursionError from deep programs.
 """
@@ -442,6 +452,102 @@ def run(ctx) -> None:
         if vals < 3:
             raise AnchorError(f"R13f: only {vals} real-value reads of system tags found in the engine's bookkeeping (floor 3)")
         ctx.ok("R13f", f"{vals} reads of system tags in the engine's bookkeeping use `.value`", {"rule": "R13f", "functions": [f_.short for f_ in scope]})
+    # ---------------------------------------------------------------- R13g
+    ctx.rule("R13g", "a timed Pause does not resume a run that is paused on an error")
+    pc = impl_mod.classes.get("PauseEngineCommand")
+    if pc is None or "_run" not in pc.methods:
+        raise AnchorError("PauseEngineCommand._run missing")
+    prun = pc.methods["_run"]
+    ctx.analysed(prun)
+    gp = cfg_of(prun)
+    d13 = _lsd13(prun)
+
+    def is_yield13(n):
+        return n.kind == "stmt" and isinstance(n.ast, ast.Expr) and isinstance(n.ast.value, (ast.Yield, ast.YieldFrom))
+    resumes = []
+    for n in gp.nodes:
+        for c in n.calls():
+            if call_attr(c) == "_run" and isinstance(c.func.value, ast.Name) and "Unpause" in norm(d13.get(c.func.value.id, c.func.value)):
+                resumes.append(n)
+            elif call_attr(c) == "_run" and "Unpause" in norm(c.func.value):
+                resumes.append(n)
+    after_wait = [n for n in resumes if any(is_yield13(y) and gp.search([y.id], lambda x, n=n: x.id == n.id, follow_exc=False) is not None for y in gp.nodes)]
+    if not after_wait:
+        raise AnchorError("PauseEngineCommand._run: the self-resume (Unpause._run after the wait loop) was not found")
+    inst = "PauseEngineCommand._run: the resume at the end of the duration is conditional on the error state"
+    ok_g = all(any("error" in norm(e).lower() for e, pol in gp.conditions_at(n)) for n in after_wait)
+    if ok_g:
+        ctx.ok("R13g", inst)
+    else:
+        ctx.fail("R13g", prun, after_wait[0].ast, inst, "the timer expiry un-pauses unconditionally, and the error pause is the same _runstate_paused "
+                 "flag: `Watch: Run Counter >= 0 / Wait: 0.2 s / CmdWithArgs: FAIL`, `Wait: 0.3 s`, `Pause: 0.3 s`, `Mark: B` - the command "
+                 "fails in the tick in which the Pause is queued (Paused/Error); the Pause starts, expires 0.3 s later and resumes: System "
+                 "State Running, Method Status still Error, Mark: B runs")
+    # ---------------------------------------------------------------- R13h
+    ctx.rule("R13h", "mark_failed marks the node on every path")
+    mf_ = prog.func("openpectus.lang.exec.tracking:Tracking.mark_failed")
+    gmf = cfg_of(mf_)
+    sets = [n for n in gmf.nodes if n.kind == "stmt" and any(t.attr == "failed" and isinstance(v, ast.Constant) and v.value is True for t, v, st in assigned_attrs(n.ast))]
+    if not sets:
+        raise AnchorError("Tracking.mark_failed: node.failed = True not found")
+    upar = [a.arg for a in mf_.node.args.args if a.arg not in ("self",)][1:2]
+
+    def upd_off(sid, dd, lab):
+        nd = gmf.nodes[sid]
+        return nd.kind == "test" and upar and norm(nd.ast) == upar[0] and lab == "F"      # update_node=False is the caller's choice
+    inst0 = "Tracking.mark_failed: every normal path sets node.failed = True"
+    cut: set = set()        # (test id, label) edges of exits already reported: each early exit is its own construct
+    n_bad = 0
+    while n_bad < 8:
+        pth = gmf.search(None, lambda n: n.id == gmf.exit.id, blocked=lambda n: any(n.id == s_.id for s_ in sets), follow_exc=False,
+                         blocked_edge=lambda sid, dd, lab: upd_off(sid, dd, lab) or (sid, lab) in cut)
+        if pth is None:
+            break
+        n_bad += 1
+        tests_on = [(i, n) for i, n in enumerate(pth) if n.kind == "test"]
+        if not tests_on:
+            ctx.fail("R13h", mf_, mf_.node, inst0, "mark_failed reaches its end without marking the node", pth)
+            break
+        i, lt = tests_on[-1]
+        lab = next((l for d, l in gmf.succ[lt.id] if d == pth[i + 1].id), "")
+        cut.add((lt.id, lab))
+        ctx.fail("R13h", mf_, lt.ast, inst0 + f" [exit after `{norm(lt.ast)[:60]}`]", "mark_failed returns early without touching the node: `Mark: A / "
+                 "Stop: x / Mark: B` enters the error state (EngineError: Failed to initialize arguments 'x') but failed_line_ids stays [] - "
+                 "the failing instruction is not marked failed in the method state (same for `Restart: x`)", pth)
+    if n_bad == 0:
+        ctx.ok("R13h", inst0)
+    # ---------------------------------------------------------------- R13i
+    ctx.rule("R13i", "an internal command that fails to start is not left registered")
+    xi = prog.func(f"{CM}._execute_internal_command")
+    ctx.analysed(xi)
+    gx = cfg_of(xi)
+    acq = [n for n in gx.nodes if n.ast is not None and any(call_attr(c) == "create_internal_command" for c in n.calls())]
+    if not acq:
+        raise AnchorError("_execute_internal_command: create_internal_command not found")
+
+    def disposes(n) -> bool:
+        return n.ast is not None and any(call_attr(c) in ("finalize", "_finalize_command", "dispose_command") for c in n.calls())
+
+    def implicit(sid, dd, lab):
+        # only explicit raise statements (and what handlers re-raise) are followed to the raising exit
+        src = gx.nodes[sid]
+        if lab != "exc":
+            return False
+        if src.kind == "stmt" and isinstance(src.ast, ast.Raise):
+            return False
+        if dd == gx.raise_exit.id:
+            return True
+        return not src.calls()         # into a handler: only a call can raise what the handlers of this function catch
+    for n in acq:
+        inst = "_execute_internal_command: the registered instance is finalized on every explicitly raising exit"
+        pth = gx.search([(n.id, "")], lambda x: x.id == gx.raise_exit.id, blocked=disposes, blocked_edge=implicit, follow_exc=True)
+        if pth is None:
+            ctx.ok("R13i", inst)
+        else:
+            ctx.fail("R13i", xi, n.ast, inst, "the instance is registered before its arguments are validated and the failure path raises without "
+                     "disposing it: `Mark: A / Pause: x / Mark: B` fails (correct), the user corrects the line to `Pause: 0.5 s` - the new "
+                     "request finds the stale instance as 'running', ticks it (no duration in its kvargs) and the pause never ends; the "
+                     "instance also survives Stop/Start", pth)
     # ---------------------------------------------------------------- R13e
     vcc = prog.func(f"{ENGINE}._validate_control_command")
     ctx.analysed(vcc)
